@@ -35,6 +35,36 @@ def _strip(x):
 NP_POOL = ["nd0", "nd1", "nd2", "sub0", "sub1", "sub1bad", "npnum", "npbool"]
 
 
+# values of ONE exact type that fall into different categories (what the cache blocklist is for):
+# classification must not carry over from one to the next, so histories and probe orders contain
+# runs of them
+SAME_TYPE = [["nd0", "nd1", "nd2"], ["sub0", "sub1", "sub1bad"]]
+
+
+def pick_history(rng, pool, n):
+    hist = []
+    for _ in range(n):
+        grp = next((g for g in SAME_TYPE if hist and hist[-1] in g and g[0] in pool), None)
+        if grp and rng.random() < 0.45:
+            hist.append(rng.choice([x for x in grp if x != hist[-1]]))
+        else:
+            hist.append(rng.choice(pool))
+    return hist
+
+
+def cluster(order, rng):
+    """the shuffled probe order with the members of each same-type group made adjacent (half of the time)"""
+    order = list(order)
+    for g in SAME_TYPE:
+        if all(x in order for x in g) and rng.random() < 0.5:
+            members = list(g)
+            rng.shuffle(members)
+            at = min(order.index(x) for x in g)
+            order = [x for x in order if x not in g]
+            order[at:at] = members
+    return order
+
+
 def run_child(spec):
     p = subprocess.run([sys.executable, os.path.join(HERE, "c19_child.py")], input=json.dumps(spec), capture_output=True, text=True, timeout=120)
     if p.returncode != 0:
@@ -53,9 +83,10 @@ def unit_c19(args):
         base = run_child(dict(numpy=use_np, repo=env.REPO, history=[], probes=probes))
         n = 0
         for h in range(n_hist):
-            hist = [rng.choice(pool) for _ in range(rng.randint(1, 6))]
+            hist = pick_history(rng, pool, rng.randint(1, 6))
             order = list(probes)
             rng.shuffle(order)
+            order = cluster(order, rng)
             got = run_child(dict(numpy=use_np, repo=env.REPO, history=hist, probes=order))
             n += 1
             for tmp, static, probe, want, have in analog_problems(got):
@@ -95,7 +126,7 @@ def unit_c19_model(args):
     pool = BASE_POOL + (NP_POOL if use_np else [])
     try:
         md = suites.model_driver(ns)
-        hist = [rng.choice(pool) for _ in range(14)]
+        hist = pick_history(rng, pool, 14)
         got = run_child(dict(numpy=use_np, repo=env.REPO, history=hist, probes=[], resolver_trace=True))
         mode = md.query("resmode")
         n = 0
